@@ -186,6 +186,209 @@ def gen_multi(r):
     return case
 
 
+# ---------------------------------------------------------------------- the "lang" family
+# Grammar-language constructs and meta-model options that decide how a *match* becomes (or does not become) a parse
+# tree node — the first / last matched character of an object is a keyword more often than not:
+#   * the same literal at several places of the grammar (the objgen family draws a fresh keyword for every place),
+#     keyword-like words and symbols, as a string match ('w') or through a one-literal match rule (K: 'w';);
+#   * meta-model options autokwd / ignore_case (keywords become regex matches; text in mixed case) / memoization;
+#   * the suppress operator '-' on *interior* occurrences (an object never starts or ends with a suppressed match:
+#     what "first matched character" means there is left open by the statement; the other occurrences of the same
+#     literal are what is observed).
+# Every common rule R<i> starts with a literal of its own (`first`, distinct, prefix-free pool), contains only rules with
+# a larger index and never ends with a list, so the PEG parse is the derivation.
+LANG_WORDS = ["note", "sec", "end", "item", "of", "to", "with", "begin"]
+LANG_SYMS = ["#", "::", "=>", "%", "~"]
+LANG_LAYOUT_GRAM = {"comment": True}
+
+
+def lang_lit_name(g, w):
+    return "K%d" % g["pool"].index(w)
+
+
+def lang_render(g):
+    def lit(e):
+        s = lang_lit_name(g, e["w"]) if e.get("via") else "'%s'" % e["w"]
+        return s + ("-" if e.get("sup") else "")
+
+    lines = ["Model: cmds+=Cmd;", "Cmd: " + " | ".join(f"R{i}" for i in g["top"]) + ";"]
+    for i, r in enumerate(g["rules"]):
+        parts = []
+        for j, e in enumerate(r):
+            if e["k"] == "lit":
+                parts.append(lit(e))
+            elif e["k"] == "name":
+                parts.append("name=ID")
+            elif e["k"] == "str":
+                parts.append(f"s{j}=STRING")
+            else:
+                parts.append(f"k{j}{e['op']}=R{e['t']}")
+        lines.append(f"R{i}: " + " ".join(parts) + ";")
+    for w in g["pool"]:
+        if any(e["k"] == "lit" and e.get("via") and e["w"] == w for r in g["rules"] for e in r):
+            lines.append(f"{lang_lit_name(g, w)}: '{w}';")
+    lines.append(G.COMMENT_RULE)
+    return "\n".join(lines) + "\n"
+
+
+def lang_names(g):
+    return sorted(["Model", "Cmd"] + [f"R{i}" for i in range(len(g["rules"]))] + [f"K{i}" for i in range(len(g["pool"]))])
+
+
+def lang_opts(g):
+    return {k: bool(v) for k, v in g.get("opts", {}).items()}
+
+
+def gen_lang_grammar(r):
+    nw = r.randint(4, 6)
+    pool = r.sample(LANG_WORDS, min(nw, len(LANG_WORDS)))[:nw]
+    if r.chance(0.5):
+        pool += r.sample(LANG_SYMS, r.randint(1, 2))
+    nr = r.randint(2, 4)
+    firsts = r.sample(pool, nr)
+    rules = []
+    for i in range(nr):
+        def lit(first=False, last=False, avoid=()):
+            cands = [w for w in pool if w not in avoid] or [w for w in pool]
+            w = r.choice(cands)
+            # preferably a literal that is also the first literal of a rule (the interesting coincidence)
+            if r.chance(0.5):
+                w = r.choice([f for f in firsts if f not in avoid] or cands)
+            return {"k": "lit", "w": w, "sup": (not last) and r.chance(0.35), "via": r.chance(0.2)}
+
+        els = [{"k": "lit", "w": firsts[i], "sup": False, "via": r.chance(0.2)}]
+        for _ in range(r.randint(1, 4)):
+            kind = r.weighted([("lit", 5), ("name", 2), ("str", 2), ("kids", 3 if i < nr - 1 else 0)])
+            prev = els[-1]
+            avoid = [firsts[prev["t"]]] if prev["k"] == "kids" else []
+            if kind == "lit":
+                els.append(lit(avoid=avoid))
+            elif kind == "name":
+                if prev["k"] != "kids" and not any(e["k"] == "name" for e in els):
+                    els.append({"k": "name"})
+            elif kind == "str":
+                if prev["k"] != "kids":
+                    els.append({"k": "str"})
+            elif prev["k"] != "kids":
+                els.append({"k": "kids", "t": r.randint(i + 1, nr - 1), "op": r.choice(["*", "+"])})
+        last = els[-1]
+        if last["k"] == "kids" or (last["k"] == "lit" and last["sup"]) or r.chance(0.4) or len(els) == 1:
+            avoid = [firsts[last["t"]]] if last["k"] == "kids" else []
+            els.append(dict(lit(last=True, avoid=avoid), sup=False))
+        if not any(e["k"] != "lit" for e in els):  # a rule without assignment would be a match rule
+            els.insert(1, {"k": "name"})
+        rules.append(els)
+    top = sorted(set([0] + [i for i in range(1, nr) if r.chance(0.6)]))
+    return {"pool": pool, "rules": rules, "top": top,
+            "opts": {"autokwd": r.chance(0.6), "ignore_case": r.chance(0.3), "memoization": r.chance(0.2)}}
+
+
+def gen_lang_node(r, g, i, depth, cnt):
+    node = {"r": i, "kids": {}}
+    for j, e in enumerate(g["rules"][i]):
+        if e["k"] == "name":
+            node["name"] = "n%d" % cnt[0]
+            cnt[0] += 1
+        elif e["k"] == "kids":
+            lo = 1 if e["op"] == "+" else 0
+            n = r.randint(lo, 2) if depth > 0 else lo
+            node["kids"][str(j)] = [gen_lang_node(r, g, e["t"], depth - 1, cnt) for _ in range(n)]
+    return node
+
+
+def gen_lang(r):
+    g = gen_lang_grammar(r.fork("g"))
+    cnt = [0]
+    cmds = [gen_lang_node(r, g, r.choice(g["top"]), 2, cnt) for _ in range(r.randint(1, 4))]
+    case = {"kind": "lang", "g": g, "cmds": cmds, "casing": r.randint(0, 1 << 30)}
+    ntoks = len(lang_tokens(case)[0])
+    case["layout"] = G.gen_layout(r, LANG_LAYOUT_GRAM, ntoks)
+    return case
+
+
+def lang_tokens(case):
+    """tokens (suppressed ones included: they are in the text) and the objects in document order as
+    [class, name, first kept token, last kept token, parent, {attr: [children]}]"""
+    g = case["g"]
+    toks, kept, objs = [], [], []
+    seed = [case.get("casing", 0)]
+
+    def cased(w):
+        if not g.get("opts", {}).get("ignore_case"):
+            return w
+        out = []
+        for c in w:
+            seed[0] = (seed[0] * 1103515245 + 12345) % (1 << 31)
+            out.append(c.upper() if (seed[0] >> 16) & 1 else c)
+        return "".join(out)
+
+    def walk(node, parent):
+        me = len(objs)
+        o = [f"R{node['r']}", node.get("name"), None, None, parent, {}]
+        objs.append(o)
+        for j, e in enumerate(g["rules"][node["r"]]):
+            if e["k"] == "kids":
+                o[5][f"k{j}"] = [walk(k, me) for k in node["kids"].get(str(j), [])]
+                continue
+            if e["k"] == "lit":
+                toks.append(cased(e["w"]))
+                kept.append(not e.get("sup"))
+            elif e["k"] == "name":
+                toks.append(node["name"])
+                kept.append(True)
+            else:
+                toks.append('"s%d // %d"' % (me, j) if (me + j) % 3 == 0 else '"s%d"' % me)
+                kept.append(True)
+        return me
+
+    objs.append(["Model", None, None, None, None, {}])  # the root is object 0
+    tops = [walk(c, 0) for c in case["cmds"]]
+    objs[0][5]["cmds"] = tops
+    return toks, (kept, objs)
+
+
+def lang_expected(case, translate=False):
+    toks, (kept, objs) = lang_tokens(case)
+    text, offs = G.assemble(LANG_LAYOUT_GRAM, toks, case["layout"], translate)
+    # token ranges of the objects: pre-order numbering, an object's tokens are contiguous
+    g = case["g"]
+    spans = {}
+    ti = [0]
+
+    def walk(node, me_box):
+        me = me_box[0]
+        me_box[0] += 1
+        a = b = None
+        for j, e in enumerate(g["rules"][node["r"]]):
+            if e["k"] == "kids":
+                for k in node["kids"].get(str(j), []):
+                    ka, kb = walk(k, me_box)
+                    a = ka if a is None else a
+                    b = kb
+                continue
+            if kept[ti[0]]:
+                a = offs[ti[0]][0] if a is None else a
+                b = offs[ti[0]][1]
+            ti[0] += 1
+        spans[me] = [a, b]
+        return a, b
+
+    box = [1]
+    ab = [walk(c, box) for c in case["cmds"]]
+    spans[0] = [ab[0][0], ab[-1][1]]
+    exp = []
+    for i, (cls, name, _, _, parent, kids) in enumerate(objs):
+        exp.append({"eid": i, "cls": cls, "name": name, "span": spans[i], "parent": parent,
+                    "attrs": [[a, "cont", v, True] for a, v in kids.items()]})
+    return text, exp
+
+
+def lang_valid(case):
+    g = case["g"]
+    used = {c["r"] for c in case["cmds"]}
+    return bool(case["cmds"]) and used <= set(g["top"])
+
+
 class Prop(Check):
     ID = "C06"
     LEAN_MODULE = "TextxVerif.Props.C06"
@@ -238,8 +441,14 @@ class Prop(Check):
     # ------------------------------------------------------------------ generation
     def gen(self, rng, n, tier):
         nmini = n // 5
-        nmulti = n // 10
-        for k in range(n - nmini - nmulti):
+        nmulti = n // 8
+        nlang = n // 6
+        for k in range(nlang):
+            r = rng.fork(f"lang{k}")
+            case = gen_lang(r)
+            case.update(gen_cfg(r.fork("cfg")))
+            yield case
+        for k in range(n - nmini - nmulti - nlang):
             r = rng.fork(f"case{k}")
             gram = G.gen_grammar(r, want_user=r.chance(0.5))
             tree = G.derive(r, gram, maxdepth=r.randint(2, 4))
@@ -301,6 +510,8 @@ class Prop(Check):
             return G.universal_newlines(case["text"]) if translated(case) else case["text"]
         if case["kind"] == "gen":
             return G.expected(case["gram"], case["tree"], case["layout"], translate=translated(case))[0]
+        if case["kind"] == "lang":
+            return lang_expected(case, translate=translated(case))[0]
         return None
 
     def tmpdir(self, L):
@@ -361,6 +572,13 @@ class Prop(Check):
             raw = case["text"]
             L.text, L.exp = self.expected_of(case, {"text": self.case_text(case)})
             other = (case.get("hist") or {}).get("text", MINI_OTHER)
+            procs = ["Model", "W"]
+        elif case["kind"] == "lang":
+            grammar, kw = lang_render(case["g"]), lang_opts(case["g"])
+            L.text, L.exp = lang_expected(case, translate=translated(case))
+            raw = lang_expected(case, translate=False)[0]
+            other = lang_expected(dict(case, layout=dict(TRIVIAL_LAYOUT)), translate=False)[0]
+            procs = ["Model"] + [f"R{i}" for i in range(len(case["g"]["rules"]))]
         else:
             gram = case["gram"]
             grammar = G.render_grammar(gram)
@@ -369,8 +587,8 @@ class Prop(Check):
             L.text, L.exp = G.expected(gram, case["tree"], case["layout"], translate=translated(case))
             raw = G.expected(gram, case["tree"], case["layout"], translate=False)[0]
             other = G.expected(gram, case["tree"], TRIVIAL_LAYOUT, translate=False)[0]
+            procs = [r["name"] for r in case["gram"]["rules"] if r["kind"] == "common"]
         L.grammar = grammar
-        procs = ["Model", "W"] if case["kind"] == "mini" else [r["name"] for r in case["gram"]["rules"] if r["kind"] == "common"]
         L.mm = self.make_mm(case, L, grammar, procs=procs, **kw)
         hist = case.get("hist") or {}
         L.keep = []  # the other models stay alive (no recycled object ids)
@@ -453,7 +671,10 @@ class Prop(Check):
         if real is None:
             return {"outcome": "shape", "why": why, "text": L.text}
         idx = {id(o): i for i, o in enumerate(real)}
-        names = sorted(r["name"] for r in case["gram"]["rules"]) if case["kind"] == "gen" else ["Model", "W"]
+        if case["kind"] == "gen":
+            names = sorted(r["name"] for r in case["gram"]["rules"])
+        else:
+            names = lang_names(case["g"]) if case["kind"] == "lang" else ["Model", "W"]
         sub = self.observe_model(L, L.model, real, idx, names, self.file_code(L))
         text = L.text
         obs = {"outcome": "ok", "text": text, "input_same": sub.pop("input") == text, "names": names,
@@ -656,6 +877,8 @@ class Prop(Check):
                 exp += [{"eid": i + 1, "cls": "W", "name": None, "span": [s, e], "parent": 0, "attrs": []}
                         for i, (s, e) in enumerate(runs)]
             return text, exp
+        if case["kind"] == "lang":
+            return lang_expected(case, translate=translated(case))
         return G.expected(case["gram"], case["tree"], case["layout"], translate=translated(case))
 
     @staticmethod
@@ -769,6 +992,9 @@ class Prop(Check):
         v.update({"text": (obs.get("text") or "")[:400], "objs": (obs.get("objs") or [])[:6]})
         if case["kind"] == "gen":
             v["grammar"] = G.render_grammar(case["gram"])
+        if case["kind"] == "lang":
+            v["grammar"] = lang_render(case["g"])
+            v["opts"] = lang_opts(case["g"])
         return v
 
     def shrink(self, case):
@@ -798,6 +1024,9 @@ class Prop(Check):
         if case["kind"] == "multi":
             yield from self.shrink_multi(case)
             return
+        if case["kind"] == "lang":
+            yield from self.shrink_lang(case)
+            return
         lay = case["layout"]
         if lay["seps"] or lay["lead"] is not None or lay["trail"] is not None:
             yield dict(case, layout=dict(TRIVIAL_LAYOUT))
@@ -807,6 +1036,52 @@ class Prop(Check):
             yield dict(case, layout=dict(lay, seps=lay["seps"][:half]))
         for t in G.shrink_tree(case["gram"], case["tree"]):
             yield dict(case, tree=t)
+
+    def shrink_lang(self, case):
+        def cp():
+            return G._copy(case)
+
+        g = case["g"]
+        for k, v in sorted(g.get("opts", {}).items()):  # which option is needed?
+            if v:
+                c = cp()
+                c["g"]["opts"][k] = False
+                yield c
+        for k in reversed(range(len(case["cmds"]))):
+            if len(case["cmds"]) > 1:
+                c = cp()
+                del c["cmds"][k]
+                yield c
+
+        def paths(node, pre):
+            for j, ks in sorted(node["kids"].items()):
+                for k, kid in enumerate(ks):
+                    yield pre + [(j, k)]
+                    yield from paths(kid, pre + [(j, k)])
+
+        for ci, cmd in enumerate(case["cmds"]):
+            for path in paths(cmd, []):
+                c = cp()
+                node = c["cmds"][ci]
+                for j, k in path[:-1]:
+                    node = node["kids"][j][k]
+                j, k = path[-1]
+                if g["rules"][node["r"]][int(j)]["op"] == "+" and len(node["kids"][j]) == 1:
+                    continue
+                del node["kids"][j][k]
+                yield c
+        lay = case["layout"]
+        if lay["seps"] or lay["lead"] is not None or lay["trail"] is not None:
+            yield dict(case, layout=dict(TRIVIAL_LAYOUT))
+            yield dict(case, layout=dict(lay, seps=[]))
+            yield dict(case, layout=dict(lay, lead=None, trail=None))
+        for i, r in enumerate(g["rules"]):  # grammar: a suppression, a match-rule indirection
+            for j, e in enumerate(r):
+                for key in ("sup", "via"):
+                    if e["k"] == "lit" and e.get(key):
+                        c = cp()
+                        c["g"]["rules"][i][j][key] = False
+                        yield c
 
     def shrink_multi(self, case):
         def cp():
